@@ -223,3 +223,52 @@ def _only_error_returns(ctx, b, commits):
             return False
         st.extend(b.succ(x))
     return True
+
+
+# the row sets the pipelines rely on: method -> (tables, where columns, anti-join?) with the reason
+QUERY_SHAPES = {
+    "batch_check_locators_exist": (["appointments"], ["locator"], False, "per-block intersection ranges over ALL stored appointments (triggered ones included: a dispute re-confirmed after a reorg must be answered again)"),
+    "load_uuids": (["appointments"], ["locator"], False, "must range over the same rows as batch_check_locators_exist (sibling queries of get_breaches / handle_breaches)"),
+    "load_appointment": (["appointments"], ["uuid"], False, "the appointment of a uuid, whatever its trigger state"),
+    "appointment_exists": (["appointments"], ["uuid"], False, "insert-or-update decision in Watcher::store_appointment"),
+    "get_appointment_length": (["appointments"], ["uuid"], False, "slots already charged for this uuid"),
+    "get_appointment_user_and_length": (["appointments"], ["uuid"], False, "refund of a completed tracker"),
+    "tracker_exists": (["trackers"], ["uuid"], False, "already-triggered test"),
+    "load_tracker": (["appointments", "trackers"], ["uuid"], False, "tracker with its owner"),
+    "load_penalties_summaries": (["appointments", "trackers"], [], False, "every tracker is confirmation-checked on every block"),
+    "load_trackers_with_confirmation_status": (["trackers"], ["confirmed"], False, "reorg / rebroadcast selection by status"),
+    "load_user_locators": (["appointments"], ["user_id"], False, "a user's own locators"),
+    "load_all_users": (["users"], [], False, "bootstrap"),
+}
+
+
+def rule_SQ4(ctx, tier):
+    rr = RuleResult("SQ4", "the SELECTs the pipelines rely on range over the documented row sets (tables and filter columns); sibling queries agree")
+    P = ctx.prog
+    shapes = {}
+    for name, (tables, where, anti, why) in QUERY_SHAPES.items():
+        b = P.bodies.get(TDBM + name)
+        if b is None:
+            rr.anchor_missing(TDBM + name)
+            continue
+        sel = []
+        for fid in P.family(b.id):
+            sel += [st for bb, st in sql.body_sql(P.bodies[fid]) if sql.classify(st)["kind"] == "select"]
+        if len(sel) != 1:
+            rr.fail("query-count:%s=%d" % (name, len(sel)), "DBM::%s contains %d SELECT statements (1 expected)" % (name, len(sel)), where=b.span)
+            continue
+        sh = sql.select_shape(sel[0])
+        shapes[name] = sh
+        if sh["tables"] == tables and sh["where"] == where and sh["anti_join"] == anti:
+            rr.ok("%s: FROM %s WHERE %s" % (name, tables, where), sample={"rule": "SQ4", "method": name, "shape": sh, "why": why})
+        else:
+            rr.fail("query-scope:%s" % name, "DBM::%s now selects FROM %s filtered on %s%s; the pipeline relies on FROM %s filtered on %s — %s" % (
+                name, sh["tables"], sh["where"], " with an IS NULL anti-join" if sh["anti_join"] else "", tables, where, why), where=b.span)
+    a, c = shapes.get("batch_check_locators_exist"), shapes.get("load_uuids")
+    if a and c:
+        if a == c:
+            rr.ok("get_breaches and handle_breaches query the same rows")
+        else:
+            rr.fail("breach-queries-disagree", "batch_check_locators_exist (%s) and load_uuids (%s) do not range over the same rows: a locator reported as breached can yield no appointment to respond to" % (a, c))
+    rr.require_floor(12, "SQ4 instances")
+    return rr
